@@ -204,7 +204,7 @@ func Consistency(res Result) []string {
 			if tt, _ := t.Str("tokenType"); tt == "reference" {
 				if sv, ok := t.Str("scalarValue"); ok && strings.HasPrefix(sv, "@") {
 					key, _ := t.Str("key")
-					for _, n := range strings.Split(sv, " | ") {
+					for _, n := range strings.Split(sv, "|") { // the or-shortcut may be written without blanks
 						n = strings.TrimSpace(n)
 						if !strings.HasPrefix(n, "@") {
 							continue
